@@ -506,7 +506,7 @@ impl ObjFileFormat for TextFormat {
                 ".DEBUG" => if !rest.is_empty() {
                     let split_pos = rest.iter().position(|l| l.starts_with('='))?;
                     if !rest.last()?.starts_with('=') { return None; }
-                    let (label_src, [_, line_src @ .., _]) = rest.split_at(split_pos) else { unreachable!("divider should be present") };
+                    let (label_src, [_, line_src @ .., _]) = rest.split_at(split_pos) else { return None };
 
                     let label_table = parse_table(label_src, ["LABEL", "INDEX"], |[label, index_str], _| {
                         let index = index_str.parse().ok()?;
